@@ -28,7 +28,7 @@ def run(chk):
     )
     chk.not_decided = "absence of hangs and of super-linear work; exceptions of constructs outside the external-raiser table (e.g. IndexError on attacker-positioned indexes)."
     chk.assumptions.append("external-raiser table of DESIGN section 2 is complete for what these parsers call; everything else is assumed not to raise")
-    eff = Effects(repo, int_gate=lambda c: C01.gate_of_int(c, folder) is not None)
+    eff = Effects(repo, int_gate=lambda c: C01.int_cannot_raise(c, folder))
 
     # ---- C10.total -----------------------------------------------------------------------------------
     rq = repo.cls(MOD, "HttpRequestParser")
